@@ -66,6 +66,19 @@ CHECKS = {
         note='Sampled programs and schedules; each (misc command, parameter) pair outstanding at most once; needs_resending off.',
         technique='offline checker over wire log + operation history + callback log (ordering, exactly-once, conservation) under a deterministic scheduler',
         engine='detsched+simcf', design='DESIGN.md §3 C04'),
+    'C06': dict(
+        level='fault_enumeration',
+        text=('Histories of up to 6 reads and queued writes (every chunk-boundary length, flush_queue, memories with random '
+              'images incl. one mapped at the top of the 32-bit address space and devices with up to 200 memories) run '
+              'through the real Memory subsystem under the deterministic scheduler. Fault scripts: every reply duplicated '
+              '(immediately / delayed), error status on the k-th chunk and link drop after the k-th packet for every k of the '
+              'history (reported by the driver thread or the sending thread), lossy link with retry timers. Monitors compare '
+              'read results and the device image with the reference, check protocol limits and chunk contiguity on the wire, '
+              'account exactly one completion per non-superseded request, and probe that a read and a write are still served '
+              'afterwards (after reconnecting if the link was dropped).'),
+        note='Fault positions enumerated per history (capped at 6/14 per tier); histories and schedules sampled.',
+        technique='offline checker over wire log, completion log and device memory image (conservation, exactly-once, ordering); fault-position enumeration under a deterministic scheduler',
+        engine='detsched+simcf', design='DESIGN.md §3 C06'),
 }
 
 PENDING_REASON = ('check not built yet in this work session (design in DESIGN.md §3); nothing is claimed for it '
